@@ -100,3 +100,49 @@ def run_nav_via_ssa(prog, tier, repo):
                               f'from the checker\'s scoping for e.g. identifiers in later alternatives of an or-pattern')
     res.floor('navigation queries with a local-name arm', n, 3)
     return [res]
+
+
+# ---------------------------------------------------------------------------------------------------------------------
+# IDENT-ALPHABET (C15): the lexer's identifier alphabet is ASCII (`[a-z][A-Za-z0-9]*`). The rename entry point promises a
+# document that parses, so the new name may only be validated with ASCII character classes; a Unicode class
+# (`char::is_alphanumeric`, `is_alphabetic`, `is_lowercase`, ...) accepts letters and digits the lexer rejects.
+
+UNICODE_CLASSES = ('is_alphanumeric', 'is_alphabetic', 'is_lowercase', 'is_uppercase', 'is_numeric', 'is_control')
+
+
+def run_ident_alphabet(prog, tier, repo):
+    from ..callgraph import iter_operands_rvalue
+    res = RuleResult('IDENT-ALPHABET', 'C15: the rename entry point validates the new name with ASCII character classes only (the '
+                     'lexer\'s identifier alphabet), never with Unicode classes')
+    n_ascii = 0
+    for b in prog.bodies.values():
+        if b.crate != 'samlang_services' or '::rewrite::' not in b.name + '::':
+            continue
+        names = []
+        for bl in b.blocks:
+            if bl.cleanup:
+                continue
+            for st in bl.stmts:
+                if st[0] == 'a':
+                    for o in iter_operands_rvalue(st[2]):
+                        if o[0] == 'k' and o[1].fn is not None:
+                            names.append((o[1].fn[1], st[3]))
+            t = bl.term
+            if t[0] == 'call':
+                names.append((callee(t)[1] or '', t[7]))
+                for o in t[3]:
+                    if o[0] == 'k' and o[1].fn is not None:
+                        names.append((o[1].fn[1], t[7]))
+        for nm, line in names:
+            if '<impl char>' not in nm and 'char::' not in nm:
+                continue
+            short = nm.split('::')[-1]
+            if short.startswith('is_ascii_'):
+                n_ascii += 1
+                res.ok(f'alphabet:{b.name}:{short}', b.loc(line), 'ASCII character class')
+            elif short in UNICODE_CLASSES:
+                res.violation(f'alphabet:{b.name}:{short}', b.loc(line), f'{b.name} validates an identifier with the Unicode class '
+                              f'`char::{short}`: names such as `naïve` or `x٣` pass the check, but the lexer only accepts '
+                              f'[A-Za-z0-9], so the renamed document does not parse and cannot be renamed back')
+    res.floor('ASCII class tests in the rename entry point', n_ascii, 2)
+    return [res]
